@@ -748,10 +748,13 @@ class BaseProject(object, metaclass=ABCMeta):
         self.workflow.remove_absence_time_list(self.absence_time_list)
         self.organization.remove_absence_time_list(self.absence_time_list)
 
+        removed_step_count = 0
         for step_time in sorted(self.absence_time_list, reverse=True):
             if step_time < len(self.cost_list):
                 self.cost_list.pop(step_time)
-        self.time = self.time - len(self.absence_time_list)
+                removed_step_count += 1
+        # only the steps which exist in the logs are removed
+        self.time = self.time - removed_step_count
         self.absence_time_list = []
 
     def insert_absence_time_list(self, absence_time_list):
@@ -772,10 +775,14 @@ class BaseProject(object, metaclass=ABCMeta):
         self.workflow.insert_absence_time_list(new_absence_time_list)
         self.organization.insert_absence_time_list(new_absence_time_list)
 
+        inserted_step_count = 0
         for step_time in sorted(new_absence_time_list):
-            self.cost_list.insert(step_time, 0.0)
+            if step_time < len(self.cost_list):
+                self.cost_list.insert(step_time, 0.0)
+                inserted_step_count += 1
 
-        self.time = self.time + len(new_absence_time_list)
+        # only the steps which lie inside the logs are inserted
+        self.time = self.time + inserted_step_count
         self.absence_time_list.extend(new_absence_time_list)
 
     def set_last_datetime(
